@@ -1561,7 +1561,7 @@ def poolloop(F, R):
                 else: okh = False; whyh = 'returns %s' % ret
             R.ob('C10.pool-limit', okh, {'func': f.q})
             if not okh: R.find('C10.pool-limit', f, 'helper', 'completion_pending must answer with the completion mark of the first unprocessed occurrence (false for none): ' + whyh)
-        if f.cls == 'completion_event_occurrence' and f.d.get('sp') is None and f.n == 'completion_event_occurrence':
+        if f.cls == 'completion_event_occurrence' and f.d.get('sp') in (None, 'ctor') and f.n == 'completion_event_occurrence':
             # the constructor marks the occurrence as a completion (second argument of the base initialiser evaluates to true)
             for i, n in enumerate(f.nodes):
                 if n and n['k'] == 'ctor' and n.get('n') == 'event_occurrence':
